@@ -211,6 +211,17 @@ pub fn make_req(k: u64, var: &str, rng: &mut Rng) -> (VhostUserSharedMsg, VhostU
     let mut fd_offset = rng.u64_edge() % (u64::MAX - len);
     let mut shm_offset = rng.u64_edge() % (u64::MAX - len);
     let mut flags = rng.below(2);
+    // valid ranges that end exactly at the top of the 64-bit space (offset + len = 2^64 - 1: no wrap)
+    match rng.below(6) {
+        0 => fd_offset = u64::MAX - len,
+        1 => shm_offset = u64::MAX - len,
+        2 => {
+            fd_offset = 0;
+            shm_offset = 0;
+            len = u64::MAX;
+        }
+        _ => {}
+    }
     match var {
         "body.len0" => len = 0,
         "body.fd_wrap" => fd_offset = u64::MAX - len + 1,
@@ -387,7 +398,9 @@ pub fn run(cases: &[Value], trace: &mut Trace, seed: u64) {
                             break;
                         }
                     }
-                    let _ = t.join();
+                    if !hang || res.is_some() || t.is_finished() {
+                        let _ = t.join();
+                    }
                     let calls = std::mem::take(&mut s.core.s.lock().unwrap().calls);
                     let lent_ok = req.file.as_ref().map(|f| fd_id(f.as_raw_fd()) != "closed").unwrap_or(true);
                     trace.emit(json!({"ev": "breq", "mode": mode, "k": k, "r": r, "var": var, "args": req.args, "lent": lent_id,
@@ -486,7 +499,9 @@ pub fn run(cases: &[Value], trace: &mut Trace, seed: u64) {
                             break;
                         }
                     }
-                    let _ = t.join();
+                    if !hang || res.is_some() || t.is_finished() {
+                        let _ = t.join();
+                    }
                     let (msgs, leftover) = split_messages(&chunks_all);
                     close_chunk_fds(&chunks_all);
                     let lent_ok = req.file.as_ref().map(|f| fd_id(f.as_raw_fd()) != "closed").unwrap_or(true);
